@@ -10,6 +10,8 @@ C19 driver.  Case lines (shared with harness/c19/c19.c), one real call of the co
   mt <kind> <n>*        real multi-thread run, deterministic verdict line
   hbrace <ms>           (TSan build only) the real heartbeat_timer_callback on the real timer thread against the
                         real call_heart_beat on this thread
+  hbowed                (TSan build only) the real callback runs INSIDE the real call_heart_beat (interposed time()):
+                        the tick must still be owed afterwards
 
 `model` prints the events of the model, `judge` parses the implementation's output lines back into events and
 applies the specification oracle `judgeEv`.
@@ -55,6 +57,7 @@ def parseCmd (line : String) : Option Cmd :=
   | ["tcleanup"] => some .tcleanup
   | "mt" :: kind :: args => do some (.mt kind (← args.mapM (·.toNat?)))
   | ["hbrace", ms] => do some (.hbrace (← ms.toNat?))
+  | ["hbowed"] => some .hbowed
   | _ => none
 
 def parseItem (s : String) : Option Item :=
@@ -119,6 +122,8 @@ def parseEv (line : String) : Option Ev :=
   | "mt" :: kind :: "bad" :: rest => some (.mt kind false (String.intercalate " " rest))
   | ["hbrace", ms, "done"] => do some (.hbrace (← ms.toNat?) true)
   | ["hbrace", ms, "no-tick"] => do some (.hbrace (← ms.toNat?) false)
+  | ["hbowed", "kept"] => some (.hbowed true)
+  | ["hbowed", "swallowed"] => some (.hbowed false)
   | "race" :: rest => some (.race (String.intercalate " " rest))
   | "skip" :: rest => some (.skip (String.intercalate " " rest))
   | _ => none
